@@ -157,3 +157,14 @@ package assertiontree
 //@ modifies *
 //@ ensures either-member-assigned (and (= (calls "nodeAssignsAny") 1) (= (callarg "nodeAssignsAny" 0 1) node) (= result (callres "nodeAssignsAny"))
 //@    (= (len (callarg "nodeAssignsAny" 0 2)) 2) (= (idx (callarg "nodeAssignsAny" 0 2) 0) (old f.err)) (= (idx (callarg "nodeAssignsAny" 0 2) 1) (old f.arg)))
+
+//@ -- C07 (no internal error on valid range statements): a one-variable range whose operand is of a basic type (an
+//@ -- integer, possibly named) or of a type-parameter type (generic slices, maps, iterator functions, ... whatever the
+//@ -- constraint's core type is) never yields the 'unrecognized type of rhs' internal error.
+//@ method go/types.Type Underlying fn
+//@ func backpropAcrossRange
+//@ prop C07
+//@ modifies *
+//@ ensures type-parameter-operand-is-accepted (=> (and (= (len lhs) 1) (is (local rhsType) *types.TypeParam)) (isnil result))
+//@ ensures basic-operand-is-accepted (=> (and (= (len lhs) 1) (is (mcall Underlying (local rhsType)) *types.Basic)) (isnil result))
+//@ ensures two-variable-form-is-accepted (=> (= (len lhs) 2) (isnil result))
